@@ -192,14 +192,27 @@ type SCTPParameter struct {
 	Value        []byte
 }
 
-func decodeSCTPParameter(data []byte) SCTPParameter {
+// decodeSCTPParameter decodes the TLV parameter at the start of data and returns
+// it together with the bytes that follow it (after the padding, if present).
+func decodeSCTPParameter(data []byte) (SCTPParameter, []byte, error) {
+	if len(data) < 4 {
+		return SCTPParameter{}, nil, errors.New("invalid SCTP parameter: too short")
+	}
 	length := binary.BigEndian.Uint16(data[2:4])
-	return SCTPParameter{
+	if length < 4 || int(length) > len(data) {
+		return SCTPParameter{}, nil, errors.New("invalid SCTP parameter length")
+	}
+	param := SCTPParameter{
 		Type:         binary.BigEndian.Uint16(data[0:2]),
 		Length:       length,
 		Value:        data[4:length],
 		ActualLength: roundUpToNearest4(int(length)),
 	}
+	if param.ActualLength >= len(data) {
+		// the padding of the last parameter may be missing
+		return param, nil, nil
+	}
+	return param, data[param.ActualLength:], nil
 }
 
 func (p SCTPParameter) Bytes() []byte {
@@ -430,6 +443,9 @@ func decodeSCTPInit(data []byte, p gopacket.PacketBuilder) error {
 	if err != nil {
 		return err
 	}
+	if chunk.ActualLength < 20 {
+		return errors.New("invalid SCTP init chunk length")
+	}
 	sc := &SCTPInit{
 		SCTPChunk:                      chunk,
 		InitiateTag:                    binary.BigEndian.Uint32(data[4:8]),
@@ -440,9 +456,12 @@ func decodeSCTPInit(data []byte, p gopacket.PacketBuilder) error {
 	}
 	paramData := data[20:sc.ActualLength]
 	for len(paramData) > 0 {
-		p := SCTPInitParameter(decodeSCTPParameter(paramData))
-		paramData = paramData[p.ActualLength:]
-		sc.Parameters = append(sc.Parameters, p)
+		param, rest, err := decodeSCTPParameter(paramData)
+		if err != nil {
+			return err
+		}
+		paramData = rest
+		sc.Parameters = append(sc.Parameters, SCTPInitParameter(param))
 	}
 	p.AddLayer(sc)
 	return p.NextDecoder(gopacket.DecodeFunc(decodeWithSCTPChunkTypePrefix))
@@ -491,6 +510,9 @@ func decodeSCTPSack(data []byte, p gopacket.PacketBuilder) error {
 	if err != nil {
 		return err
 	}
+	if chunk.Length < 16 {
+		return errors.New("invalid SCTP sack chunk length")
+	}
 	sc := &SCTPSack{
 		SCTPChunk:                      chunk,
 		CumulativeTSNAck:               binary.BigEndian.Uint32(data[4:8]),
@@ -516,10 +538,16 @@ func decodeSCTPSack(data []byte, p gopacket.PacketBuilder) error {
 	sc.DuplicateTSNs = make([]uint32, 0, dupTSNs)
 	bytesRemaining := data[16:]
 	for i := 0; i < int(sc.NumGapACKs); i++ {
+		if len(bytesRemaining) < 2 {
+			return errors.New("SCTP sack gap ack blocks exceed remaining packet length")
+		}
 		sc.GapACKs = append(sc.GapACKs, binary.BigEndian.Uint16(bytesRemaining[:2]))
 		bytesRemaining = bytesRemaining[2:]
 	}
 	for i := 0; i < int(sc.NumDuplicateTSNs); i++ {
+		if len(bytesRemaining) < 4 {
+			return errors.New("SCTP sack duplicate TSNs exceed remaining packet length")
+		}
 		sc.DuplicateTSNs = append(sc.DuplicateTSNs, binary.BigEndian.Uint32(bytesRemaining[:4]))
 		bytesRemaining = bytesRemaining[4:]
 	}
@@ -583,9 +611,12 @@ func decodeSCTPHeartbeat(data []byte, p gopacket.PacketBuilder) error {
 	}
 	paramData := data[4:sc.Length]
 	for len(paramData) > 0 {
-		p := SCTPHeartbeatParameter(decodeSCTPParameter(paramData))
-		paramData = paramData[p.ActualLength:]
-		sc.Parameters = append(sc.Parameters, p)
+		param, rest, err := decodeSCTPParameter(paramData)
+		if err != nil {
+			return err
+		}
+		paramData = rest
+		sc.Parameters = append(sc.Parameters, SCTPHeartbeatParameter(param))
 	}
 	p.AddLayer(sc)
 	return p.NextDecoder(gopacket.DecodeFunc(decodeWithSCTPChunkTypePrefix))
@@ -639,9 +670,12 @@ func decodeSCTPError(data []byte, p gopacket.PacketBuilder) error {
 	}
 	paramData := data[4:sc.Length]
 	for len(paramData) > 0 {
-		p := SCTPErrorParameter(decodeSCTPParameter(paramData))
-		paramData = paramData[p.ActualLength:]
-		sc.Parameters = append(sc.Parameters, p)
+		param, rest, err := decodeSCTPParameter(paramData)
+		if err != nil {
+			return err
+		}
+		paramData = rest
+		sc.Parameters = append(sc.Parameters, SCTPErrorParameter(param))
 	}
 	p.AddLayer(sc)
 	return p.NextDecoder(gopacket.DecodeFunc(decodeWithSCTPChunkTypePrefix))
@@ -679,6 +713,9 @@ func decodeSCTPShutdown(data []byte, p gopacket.PacketBuilder) error {
 	chunk, err := decodeSCTPChunk(data)
 	if err != nil {
 		return err
+	}
+	if chunk.Length < 8 {
+		return errors.New("invalid SCTP shutdown chunk length")
 	}
 	sc := &SCTPShutdown{
 		SCTPChunk:        chunk,
